@@ -146,18 +146,19 @@ Fixpoint expand (fuel : nat) (w : world) (exp : list var) (k : var) (c : Z)
 
 Definition sub_fuel : nat := 64.
 
+(* the loop `for key, value in self.coeffs.items(): expand(key, value)` *)
+Fixpoint subst_terms (w : world) (l : list (var * Z)) : list (var * Z) * Z * list var :=
+  match l with
+  | [] => ([], 0, [])
+  | (k1, v1) :: r =>
+      let '(t1, c1, n1) := expand sub_fuel w [] k1 v1 in
+      let '(t2, c2, n2) := subst_terms w r in
+      (t1 ++ t2, c1 + c2, n1 ++ n2)
+  end.
+
 (* _substitute_known_variables: the new polynomial and not_ready_keys *)
 Definition substitute (w : world) (p : poly) : poly * list var :=
-  let '(ts, c0, nr) :=
-    (fix go (l : list (var * Z)) : list (var * Z) * Z * list var :=
-       match l with
-       | [] => ([], 0, [])
-       | (k1, v1) :: r =>
-           let '(t1, c1, n1) := expand sub_fuel w [] k1 v1 in
-           let '(t2, c2, n2) := go r in
-           (t1 ++ t2, c1 + c2, n1 ++ n2)
-       end) (coeffs p) in
-  (mk ts (const p + c0), nr).
+  let '(ts, c0, nr) := subst_terms w (coeffs p) in (mk ts (const p + c0), nr).
 
 (* key.wait() outside try_compute (speculating = false) or under an outer one (speculating = true):
    None = it raises (DeferredCycle, NotReadyError, or the plain "not ready" exception) *)
